@@ -10,6 +10,8 @@ package main
 
 import (
 	"fmt"
+	"go/ast"
+	"go/constant"
 	"go/token"
 	"sort"
 	"strings"
@@ -329,7 +331,82 @@ func shiftOfPair(fa *FA, v ssa.Value, depth int) (Lin, bool) {
 			return L.Add(fa.Lin(bo.Y)), true
 		}
 	}
+	// tabulated: T[i] with T a package-level array whose literal holds 0x0100000001<<i at every index i
+	if tab, idx, ok := asElemLoad(v); ok {
+		if g, ok := tab.(*ssa.Global); ok && pairTable(fa.W, g) {
+			return fa.Lin(idx), true
+		}
+	}
 	return Lin{}, false
+}
+
+// pairTable: the package-level array g is initialised by a literal whose i-th element is the constant 0x0100000001<<i,
+// for every i, and is stored to nowhere else.
+func pairTable(w *World, g *ssa.Global) bool {
+	for _, p := range w.Pkgs {
+		if p.Types != g.Pkg.Pkg {
+			continue
+		}
+		for _, f := range p.Syntax {
+			found, good := false, true
+			ast.Inspect(f, func(n ast.Node) bool {
+				vs, ok := n.(*ast.ValueSpec)
+				if !ok {
+					return true
+				}
+				for i, id := range vs.Names {
+					if p.TypesInfo.Defs[id] != g.Object() || i >= len(vs.Values) {
+						continue
+					}
+					found = true
+					cl, ok := vs.Values[i].(*ast.CompositeLit)
+					if !ok || len(cl.Elts) == 0 {
+						good = false
+						continue
+					}
+					for k, el := range cl.Elts {
+						if _, keyed := el.(*ast.KeyValueExpr); keyed {
+							good = false
+							continue
+						}
+						tv := p.TypesInfo.Types[el]
+						if tv.Value == nil {
+							good = false
+							continue
+						}
+						u, exact := constant.Uint64Val(constant.ToInt(tv.Value))
+						if !exact || k > 31 || u != uint64(0x0100000001)<<uint(k) {
+							good = false
+						}
+					}
+				}
+				return true
+			})
+			if found {
+				if !good {
+					return false
+				}
+				// no other store
+				stores := 0
+				for _, m := range g.Pkg.Members {
+					if fn, ok := m.(*ssa.Function); ok && fn.Blocks != nil && fn.Name() != "init" {
+						eachInstr(fn, func(ins ssa.Instruction) {
+							if st, ok := ins.(*ssa.Store); ok {
+								if ia, ok := st.Addr.(*ssa.IndexAddr); ok && ia.X == ssa.Value(g) {
+									stores++
+								}
+								if st.Addr == ssa.Value(g) {
+									stores++
+								}
+							}
+						})
+					}
+				}
+				return stores == 0
+			}
+		}
+	}
+	return false
 }
 
 // shiftOfPow2: v is 2^k << s (k a constant, possibly 0): returns the exponent s + k.
@@ -385,6 +462,20 @@ func reportPrefix(w *World, r *Report, fn *ssa.Function) {
 		return
 	}
 	hParam, iParam := fn.Params[0], fn.Params[1]
+	{
+		r.Rule("R-LEVELMASK", "IndexToPath starts from the level mask 0x0100000001 << treeheight (one bit in the mask half, one in the path half, at the root level of this tree), computed from the height parameter or read from a table whose every entry i is verified to be 0x0100000001 << i: a level mask from anywhere else (a hand-written table with one wrong literal) sends one height astray")
+		nlm := 0
+		eachInstr(fn, func(ins ssa.Instruction) {
+			v, ok := ins.(ssa.Value)
+			if !ok {
+				return
+			}
+			if L, ok := shiftOfPair(fa, v, 0); ok && L.Eq(fa.Lin(hParam)) {
+				nlm++
+			}
+		})
+		r.Check(nlm >= 1, "R-LEVELMASK", "bmtree.IndexToPath", w.Pos(fn.Pos()), "no value of IndexToPath is 0x0100000001 << treeheight (computed, or read from a verified table)", fmt.Sprintf("%d level-mask site(s)", nlm))
+	}
 	// the fixed-bits masks: uint64 differences of two shifted pairs
 	type fixedMask struct {
 		ins   *ssa.BinOp
